@@ -165,7 +165,8 @@ def eval_cases(module, cases, *, tag=None, timeout=1800, env=None, cfg=None):
     e = {"CASES": cin, "OUTF": cout}
     if env:
         e.update(env)
-    res = run_tlc(module, cfg or "Eval.cfg", workers=1, env=e, timeout=timeout, tag=tag)
+    # several evaluators run side by side (eval_parallel): cap each JVM, the default (a quarter of the RAM each) invites the OOM killer
+    res = run_tlc(module, cfg or "Eval.cfg", workers=1, env=e, timeout=timeout, tag=tag, heap="4g")
     if not os.path.exists(cout):
         raise MachineryError("evaluator %s wrote no output:\n%s" % (module, res.out[-3000:]))
     with open(cout) as f:
